@@ -56,24 +56,38 @@ ASSUMPTIONS = [
     "MD5/SHA-2/AES are the functions hashlib/cryptography compute; AES-CBC decrypt inverts encrypt for equal key/IV",
 ]
 STATEMENT_STATUS: Dict[str, str] = {
+    "C10_main": "proved: for every configuration (V1/V2 RC4 any length, V4 RC4/AESV2/Identity, V5 R5/R6 AESV3; any P, ID, "
+                "EncryptMetadata, crypt-filter name, passwords, IVs) opening with the user password selects the registry's "
+                "handler class, recovers the writer's file key, reports perms = bits 3/4/5 of P and getobj returns every "
+                "direct object as before encryption; assumptions: PrimsOK, and for V5 the one no-collision clause below",
+    "C10_open": "proved (handler selection + init_params checks + authenticate, all configurations)",
     "rc4_involution": "proved (every key, every data); rc4_involution_except for Arcfour's own API",
-    "objkey_agree": "proved; objkey_agree_aes needs key >= 11 bytes (pdfminer counts the sAlT in min(len,16))",
+    "objkey_agree": "proved; objkey_agree_aes needs key >= 11 bytes; v4_file_key_length proves every V4 file key has 16 bytes, "
+                    "so the deviation min(len(key)+9,16) vs min(n+5,16) is unreachable (also tested for lengths 1..32)",
     "computeKey_is_alg2": "proved: compute_encryption_key (constants regenerated from pdfdocument.py) = ISO Algorithm 2",
-    "user_pw_accepts": "proved for R2-R4, any P >= -2^32, ID, EncryptMetadata, key length (md5 digests 16 bytes)",
-    "owner_pw_accepts": "proved for R2-R4 (owner_recovers_user: 20 RC4 layers peeled by rc4_involution)",
-    "authenticate_user_accepts": "proved (Length >= 8, P != 0, Latin-1 password)",
-    "r56_user_accepts": "proved for the user branch; r56_authenticate_user_partial: full authenticate() under the "
-                        "explicit hypothesis that the owner validation hash does not collide for the user password",
-    "r56_owner_accepts": "proved; r56_authenticate_owner proved",
+    "user_pw_accepts / owner_pw_accepts / authenticate_user_accepts": "proved for R2-R4 (owner_recovers_user: 20 RC4 layers)",
+    "authenticate_owner_accepts_partial": "partial: authenticate() tries the user path first; remaining assumption: the owner "
+                                          "password does not pass the U check unless it pads to the user's 32 bytes (H1)",
+    "r56_user_accepts / r56_owner_accepts / r56_authenticate_owner / r56_authenticate_user_same_pw": "proved",
+    "r56_authenticate_user_partial": "partial: exactly one assumption left - up != op -> H(up, ov, U) != H(op, ov, U) "
+                                     "(the owner validation hash of this document does not collide between its two passwords)",
     "r6_fuel_suffices": "proved unconditionally (the loop of _r6_password ends by round 288)",
-    "C10_roundtrip_bytes": "proved for RC4/AESV2/AESV3/Identity, every objid/genno/IV, padding removed",
-    "C10_roundtrip": "proved for whole objects (strings, containers, stream dictionaries, Metadata rule, XRef exemption)",
-    "once_only": "once_only_not_elsewhere / once_only_xref / once_only_string proved; a counting (trace) formulation is future work",
+    "C10_roundtrip_bytes / C10_roundtrip": "proved for RC4/AESV2/AESV3/Identity, whole objects, every objid/genno/IV, padding "
+                                           "removed; encryptBytes_ne_nil removes the former non-emptiness hypothesis",
+    "once_only_trace": "proved: the instrumented traversal (decipherAllT) makes exactly expectedCalls o - every non-empty string "
+                       "once at any depth, the payload once, nothing for XRef streams - and projects to the pure model; "
+                       "once_only_trace_elsewhere (objstm / trailer / Encrypt: zero calls); once_only_second_read_cached / "
+                       "_uncached (cache state machine); tied to pdfminer by comparing real decipher calls each run",
     "perms_bits": "proved (bits 3/4/5 of the stored P); perms_of_signed_P relates signed and unsigned P",
-    "C10_rejects_partial": "partial: rejection of other passwords under two explicit no-collision hypotheses "
-                           "(cryptographic assumption); rejects_non_latin1, r56_rejects_partial, r6_rejects_saslprep_refused proved",
+    "C10_rejects_writer_partial": "partial (R2-R4): exactly two assumptions - H1 second-preimage resistance of the U check, "
+                                  "H2 no other password yields an RC4 key decrypting O to the padded user password; "
+                                  "C10_rejects_generic is assumption-free",
+    "r56_rejects_writer_partial": "partial (R5/R6): the wrong password's two validation hashes do not collide with the owner's / user's",
+    "rejects_non_latin1 / r6_rejects_saslprep_refused": "proved",
+    "saslprep_model_eq_spec": "proved: control flow of _saslprep.saslprep = RFC 4013 / RFC 3454 section 6 for every table content; "
+                              "sasl_tables_are_rfc4013 pins the regenerated table list; trusted: stringprep table contents, NFKC 3.2",
     "C10_aes_padding_cex": "proved counter-example for the pinned (pre-fix) AES decryption",
-    "SASLprep, MD5, SHA-2, AES": "abstract parameters (Prims); not modelled",
+    "MD5, SHA-2, AES": "abstract parameters (Prims); not modelled",
 }
 
 CLASSIFIERS = {
